@@ -39,13 +39,14 @@ def parse4 (args : List String) : Option (Cfg × List Nat × Option Nat × DB ×
     | _, _, _, _ => none
   | _ => none
 
-def classify4 (cfg : Cfg) (p p1 p2 : Program) (edb : DB) (parts : List String) : String :=
+def classify4 (cfg : Cfg) (p p1 p2 : Program) (_edb : DB) (parts : List String) : String :=
   if hasMutualRecursiveScc p then "has_mutual_recursive_scc"
   else if queryRel p != answeredRel p || queryRel p1 != answeredRel p1 || queryRel p2 != answeredRel p2 then
     "last_rule_head_not_last_head"
   else if parts.getD 4 "" != "1" && cfg.ms then "magic_seed_in_input_tuples"
-  else if !allOff cfg &&
-      runWire {} p edb == runWire {} p1 edb && runWire {} p edb == runWire {} p2 edb then "switch_dependent_order"
+  else if [p, p1, p2].any (unionWithJoinUnderJoinPlanning cfg) then "union_with_join_under_join_planning"
+  else if [p, p1, p2].any (lastHeadMultiClauseWithSip cfg) then "last_head_multi_clause_with_sip"
+  else if [p, p1, p2].any (repeatedVarUnderJoinPlanning cfg) then "repeated_var_in_scan_under_join_planning"
   else "unclassified"
 
 def verdict4 (cfg : Cfg) (p p1 p2 : Program) (edb : DB) (impl : String) : String × Bool :=
